@@ -205,8 +205,12 @@ type nopBody struct{ *bytes.Reader }
 func (nopBody) Close() error { return nil }
 
 // newClient returns the bundled client talking to this environment.
-func (e *webEnv) newClient() *client.Client {
-	cl, err := client.New("http://"+webHost+e.prefix(""), client.WithTransport(inProcTransport{e}))
+func (e *webEnv) newClient(trailingSlash ...bool) *client.Client {
+	base := "http://" + webHost + e.prefix("")
+	if len(trailingSlash) > 0 && trailingSlash[0] {
+		base += "/" // "http://localhost:9000/" is what the client's own documentation and tests use
+	}
+	cl, err := client.New(base, client.WithTransport(inProcTransport{e}))
 	if err != nil {
 		panic("harness: client.New: " + err.Error())
 	}
